@@ -183,7 +183,7 @@ def escByteJsoniter (b : UInt8) : Bytes :=
   else if b == 10 then [92, 110]
   else if b == 13 then [92, 114]
   else if b == 9 then [92, 116]
-  else kw "\\u00" ++ [hexLow (b.toNat / 16), hexLow (b.toNat % 16)]
+  else [92, 117, 48, 48, hexLow (b.toNat / 16), hexLow (b.toNat % 16)]
 
 /-- jsoniter `Stream.WriteString` (no HTML escaping; bytes ≥ 0x80 pass through unvalidated). -/
 def writeString (s : Bytes) : Bytes := [34] ++ s.flatMap escByteJsoniter ++ [34]
@@ -396,9 +396,8 @@ inductive TsVal
   | inexact
 deriving Repr, DecidableEq, Inhabited
 
-/-- JSON number `-?digits(.digits)?` → value × 1000 -/
-def pTs : P TsVal := fun s =>
-  let (neg, s) := match s with | 45 :: r => (true, r) | _ => (false, s)
+/-- JSON number without its sign: `digits(.digits)?` → ± value × 1000 -/
+def pTsAbs (neg : Bool) : P TsVal := fun s =>
   match spanDigits s with
   | ([], _) => none
   | (ip, rest) =>
@@ -414,6 +413,12 @@ def pTs : P TsVal := fun s =>
           some (.exact (sign (ofDigits ip * 1000 + ofDigits fp / 10 ^ (k - 3))), rest')
         else some (.inexact, rest')
     | _ => some (.exact (sign (ofDigits ip * 1000)), rest)
+
+/-- JSON number `-?digits(.digits)?` → value × 1000 -/
+def pTs : P TsVal := fun s =>
+  match s with
+  | [] => none
+  | b :: r => if b = 45 then pTsAbs true r else pTsAbs false (b :: r)
 
 /-- whole-input timestamp parser -/
 def parseTs (s : Bytes) : Option Int :=
@@ -433,30 +438,38 @@ def utf8Enc (r : Nat) : Bytes :=
   else if r < 0x800 then [(0xC0 + r / 64).toUInt8, (0x80 + r % 64).toUInt8]
   else [(0xE0 + r / 4096).toUInt8, (0x80 + r / 64 % 64).toUInt8, (0x80 + r % 64).toUInt8]
 
+def unescapeChar (c : UInt8) : Option UInt8 :=
+  if c = 34 ∨ c = 92 ∨ c = 47 then some c
+  else if c = 110 then some 10 else if c = 114 then some 13 else if c = 116 then some 9
+  else if c = 98 then some 8 else if c = 102 then some 12 else none
+
 /-- body of a JSON string up to the closing quote, unescaping -/
 def unescape : Bytes → Option (Bytes × Bytes)
   | [] => none
-  | 34 :: rest => some ([], rest)
-  | 92 :: 117 :: a :: b :: c :: d :: rest =>
-    match hexValB a, hexValB b, hexValB c, hexValB d, unescape rest with
-    | some a, some b, some c, some d, some (s, r) =>
-      let cp := ((a * 16 + b) * 16 + c) * 16 + d
-      if 0xD800 ≤ cp ∧ cp < 0xE000 then none else some (utf8Enc cp ++ s, r)
-    | _, _, _, _, _ => none
-  | 92 :: c :: rest =>
-    let m : Option UInt8 :=
-      if c = 34 ∨ c = 92 ∨ c = 47 then some c
-      else if c = 110 then some 10 else if c = 114 then some 13 else if c = 116 then some 9
-      else if c = 98 then some 8 else if c = 102 then some 12 else none
-    match m, unescape rest with
-    | some x, some (s, r) => some (x :: s, r)
-    | _, _ => none
-  | [92] => none
   | b :: rest =>
-    if b < 32 then none else
-    match unescape rest with
-    | some (s, r) => some (b :: s, r)
-    | none => none
+    if b = 34 then some ([], rest)
+    else if b = 92 then
+      match rest with
+      | [] => none
+      | c :: rest' =>
+        if c = 117 then
+          match rest' with
+          | h1 :: h2 :: h3 :: h4 :: r =>
+            match hexValB h1, hexValB h2, hexValB h3, hexValB h4, unescape r with
+            | some a, some b, some c, some d, some (s, r') =>
+              let cp := ((a * 16 + b) * 16 + c) * 16 + d
+              if 0xD800 ≤ cp ∧ cp < 0xE000 then none else some (utf8Enc cp ++ s, r')
+            | _, _, _, _, _ => none
+          | _ => none
+        else
+          match unescapeChar c, unescape rest' with
+          | some x, some (s, r) => some (x :: s, r)
+          | _, _ => none
+    else if b < 32 then none
+    else
+      match unescape rest with
+      | some (s, r) => some (b :: s, r)
+      | none => none
 
 def pString : P Bytes := fun s =>
   match s with
